@@ -101,7 +101,7 @@ def main():
 
 NA = {}
 HOOK_COMMITS = ["cb16685"]
-FIX_COMMITS = ["3ba2124", "35e540e", "5d9c0a9", "6dfbe91"]
+FIX_COMMITS = ["3ba2124", "35e540e", "5d9c0a9", "182cdbb"]
 ENGINES = [
     dict(name="StreamDecoder", path="specs/StreamDecoder.tla", serves_properties=["C09"],
          kind_free_text="TLA+ model of the stream window (StreamDecoder.tla + StreamIdx.tla) and trace specification StreamTrace.tla"),
